@@ -639,6 +639,10 @@ class ApplicationJobs:
         for command in sum(self.planned_jobs.values(), []):
             if command.process in failed_processes:
                 failed_processes.remove(command.process)
+            # a planned job cannot target an invalidated Supvisors instance anymore
+            # (the identifier is chosen in advance when the application is not distributed)
+            if command.identifier in invalidated_identifiers:
+                command.identifier = None
         # no need to trigger jobs
         # this method is already triggered by the upper periodic check that will call self.next() anyway
 
